@@ -101,6 +101,20 @@ class H(bf.Family):
                 ops.apply(w.shadow, label)
         return obs
 
+    def pre_view(self, w):
+        super().pre_view(w)
+        v = bf.View(w)
+        return {g['job_group_id'] for g in v.groups if g['update_id'] not in v.committed and g['job_group_id'] != 0}
+
+    def check_transition(self, w, pre, label, obs):
+        out = super().check_transition(w, None, label, obs)
+        if label[0] == 'cancel' and label[1] in (pre or ()):
+            # a job group of an uncommitted update does not exist for the rest of the world: cancelling it must be refused
+            if obs.get('http') != 404:
+                out.append(('cancel-accepted-for-group-of-uncommitted-update',
+                            f'cancel of job group {label[1]} (created by an update that is not committed) answered {obs} instead of 404'))
+        return out
+
     def check_state(self, w):
         out = super().check_state(w)
         if w.shadow_on:
